@@ -1089,6 +1089,91 @@ func ruleI9(c *Ctx) {
 							}
 						}
 					}
+					// exactly: with the divisor -1 and the dividend the minimum, is the division still
+					// reachable? (tests on either value, and predicate helpers of the module given both, are
+					// decided; `isMinDurationNegation(d, i)` is interpreted)
+					if !guarded {
+						strip := func(v ssa.Value) ssa.Value {
+							for {
+								switch x := v.(type) {
+								case *ssa.ChangeType:
+									v = x.X
+								case *ssa.Convert:
+									if sb, ok := x.X.Type().Underlying().(*types.Basic); ok && sb.Info()&types.IsInteger != 0 && i9Size(sb) == 8 {
+										v = x.X
+									} else {
+										return v
+									}
+								default:
+									return v
+								}
+							}
+						}
+						dv, iv := strip(bo.X), strip(bo.Y)
+						valOf := func(v ssa.Value) (int64, bool) {
+							switch strip(v) {
+							case dv:
+								return math.MinInt64, true
+							case iv:
+								return -1, true
+							}
+							return constInt(v)
+						}
+						eval := func(cond ssa.Value) (bool, bool) {
+							cv, neg := stripNot(cond)
+							switch x := cv.(type) {
+							case *ssa.BinOp:
+								a, ok1 := valOf(x.X)
+								b, ok2 := valOf(x.Y)
+								if !ok1 || !ok2 {
+									return false, false
+								}
+								if _, c1 := x.X.(*ssa.Const); c1 {
+									if _, c2 := x.Y.(*ssa.Const); c2 {
+										return false, false
+									}
+								}
+								var r bool
+								switch x.Op {
+								case token.EQL:
+									r = a == b
+								case token.NEQ:
+									r = a != b
+								case token.LSS:
+									r = a < b
+								case token.LEQ:
+									r = a <= b
+								case token.GTR:
+									r = a > b
+								case token.GEQ:
+									r = a >= b
+								default:
+									return false, false
+								}
+								return r != neg, true
+							case *ssa.Call:
+								cal := x.Call.StaticCallee()
+								if cal == nil || len(cal.Blocks) == 0 || !strings.HasPrefix(fnPkgPath(cal), modPath) || len(x.Call.Args) != len(cal.Params) {
+									return false, false
+								}
+								var args []sval
+								for _, a := range x.Call.Args {
+									k, ok := valOf(a)
+									if !ok {
+										return false, false
+									}
+									args = append(args, svInt(k))
+								}
+								if res, ok := sinterpFunc(cal, args...); ok && res.k == 'b' {
+									return res.b != neg, true
+								}
+							}
+							return false, false
+						}
+						if dv != iv && !reachUnder(fn.Blocks[0], bo.Block(), eval) {
+							guarded = true
+						}
+					}
 					if r, ok := i9Exceptions[key+" overflow"]; ok && !guarded {
 						c.except(key+" overflow", pos, r)
 					} else if !guarded && w3Exceptions[fnName(outermost(fn))] == "" {
